@@ -75,7 +75,7 @@ def run_chunk(spec, ctx):
     import numpy as np
     import molli as ml
     from vmon import gen
-    from vmon.snap import snap, diff, snap_hash, brief
+    from vmon.snap import snap, diff, snap_hash, brief, mech_field
 
     kind, version = spec["kind"], spec["version"]
     Lib = ml.MoleculeLibrary if kind == "mol" else ml.ConformerLibrary
@@ -160,7 +160,7 @@ def run_chunk(spec, ctx):
                 ctx.count("source-unchanged")
                 d = diff(before[key], after)
                 if d:
-                    ctx.violation(f"store-alters-source:{tag}:{d[0][0]}", case=case, diff=d[:4])
+                    ctx.violation(f"store-alters-source:{tag}:{mech_field(d[0][0])}", case=case, diff=d[:4])
 
     def check(key, y, route):
         case, x = objs[key]
@@ -175,7 +175,7 @@ def run_chunk(spec, ctx):
         ctx.count(f"roundtrip.{tag}")
         ctx.count(f"read.{route}")
         if d:
-            field = d[0][0].split("[")[0].strip(".") + ("." + d[0][0].rsplit(".", 1)[-1] if "]" in d[0][0] else "")
+            field = mech_field(d[0][0])
             ctx.violation(f"roundtrip-differs:{tag}:{field}", case=case, route=route, diff=d[:5], obj=brief(x))
         if par:
             ctx.violation(f"readback-parent-or-index-wrong:{tag}:{par[0][0]}", case=case, route=route, bad=par[:4])
@@ -301,7 +301,7 @@ def run_chunk(spec, ctx):
             a, b = (restrict_v1(before[key]), restrict_v1(sy)) if version == 1 else (before[key], sy)
             d = diff(a, b, rtol=RTOL, atol=ATOL)
             if d:
-                ctx.violation(f"roundtrip-differs:{tag}:fresh-process:{d[0][0]}", case=case, diff=d[:5])
+                ctx.violation(f"roundtrip-differs:{tag}:fresh-process:{mech_field(d[0][0])}", case=case, diff=d[:5])
             if par:
                 ctx.violation(f"readback-parent-or-index-wrong:{tag}:{par[0][0]}", case=case, route="fresh-process")
 
